@@ -1,0 +1,221 @@
+//go:build verif
+
+package excelize
+
+import (
+	"bytes"
+	"fmt"
+	"io"
+	"math"
+	"strings"
+)
+
+func verifC06Rect(ref string) string {
+	if ref == "" {
+		return "!-"
+	}
+	r := ref
+	if !strings.Contains(r, ":") {
+		r += ":" + r
+	}
+	c, err := rangeRefToCoordinates(r)
+	if err != nil || len(c) != 4 {
+		return "!" + verifHex(ref)
+	}
+	return fmt.Sprintf("%d.%d.%d.%d", c[0], c[1], c[2], c[3])
+}
+
+func verifC06Sq(sqref string) string {
+	var parts []string
+	for _, ref := range strings.Split(sqref, " ") {
+		p := verifC06Rect(ref)
+		if strings.HasPrefix(p, "!") {
+			return "!" + verifHex(sqref)
+		}
+		parts = append(parts, p)
+	}
+	return strings.Join(parts, "+")
+}
+
+func verifC06B(b bool) int {
+	if b {
+		return 1
+	}
+	return 0
+}
+
+func verifC06F(p *float64) string {
+	if p == nil {
+		return "-"
+	}
+	return fmt.Sprintf("%016x", math.Float64bits(*p))
+}
+
+// VerifC06Dump prints the internal state of a worksheet that the structural
+// edits (InsertRows, RemoveRow, InsertCols, RemoveCol, DuplicateRowTo) act on,
+// in the canonical format of the C06 line protocol:
+//
+//	n=<N>/<rd> R[...] C[...] M[...] H[...] V[...] F[...] A[...] T[...]
+func VerifC06Dump(f *File, sheet string) string {
+	ws, err := f.workSheetReader(sheet)
+	if err != nil {
+		return "ERR"
+	}
+	var b strings.Builder
+	rd := 1
+	var rows []string
+	for i := range ws.SheetData.Row {
+		row := &ws.SheetData.Row[i]
+		if row.R != i+1 {
+			rd = 0
+		}
+		attr := "-"
+		if row.S != 0 || row.Ht != nil || row.CustomHeight || row.OutlineLevel != 0 || row.CustomFormat ||
+			row.Collapsed || row.ThickTop || row.ThickBot || row.Ph || row.Spans != "" {
+			attr = fmt.Sprintf("s%d:ht%s:ch%d:o%d:cf%d:co%d:tt%d:tb%d:ph%d:sp%s", row.S, verifC06F(row.Ht),
+				verifC06B(row.CustomHeight), row.OutlineLevel, verifC06B(row.CustomFormat), verifC06B(row.Collapsed),
+				verifC06B(row.ThickTop), verifC06B(row.ThickBot), verifC06B(row.Ph), verifHex(row.Spans))
+		}
+		if !row.Hidden && attr == "-" && len(row.C) == 0 {
+			continue
+		}
+		d := 1
+		var cells []string
+		for j := range row.C {
+			c := &row.C[j]
+			name, _ := CoordinatesToCellName(j+1, row.R)
+			if c.R != name {
+				d = 0
+			}
+			tok := "-"
+			if c.T != "" || c.V != "" || c.F != nil || c.IS != nil {
+				t := c.T
+				if t == "" {
+					t = "_"
+				}
+				ft := "N"
+				if c.F != nil {
+					ft = verifHex(c.F.Content)
+					if c.F.T != "" || c.F.Ref != "" {
+						ft += ":" + c.F.T + ":" + verifHex(c.F.Ref)
+					}
+				}
+				v := c.V
+				if c.IS != nil {
+					v += "|is|" + c.IS.String()
+				}
+				tok = t + "." + verifHex(v) + "." + ft
+			}
+			if c.S != 0 || tok != "-" {
+				nm := c.R
+				if nm == "" {
+					nm = "!-"
+				}
+				cells = append(cells, fmt.Sprintf("%s~%d~%s", nm, c.S, tok))
+			}
+		}
+		rows = append(rows, fmt.Sprintf("%d/%d/%s/%d/%d/%s", row.R, verifC06B(row.Hidden), attr, len(row.C), d, strings.Join(cells, ",")))
+	}
+	fmt.Fprintf(&b, "n=%d/%d R[%s]", len(ws.SheetData.Row), rd, strings.Join(rows, ";"))
+	var cols []string
+	if ws.Cols != nil {
+		for _, c := range ws.Cols.Col {
+			cols = append(cols, fmt.Sprintf("%d-%d/w%s:cw%d:h%d:o%d:s%d:bf%d:co%d:ph%d", c.Min, c.Max, verifC06F(c.Width),
+				verifC06B(c.CustomWidth), verifC06B(c.Hidden), c.OutlineLevel, c.Style, verifC06B(c.BestFit), verifC06B(c.Collapsed), verifC06B(c.Phonetic)))
+		}
+	}
+	fmt.Fprintf(&b, " C[%s]", strings.Join(cols, ";"))
+	var ms []string
+	if ws.MergeCells != nil {
+		for _, m := range ws.MergeCells.Cells {
+			if m == nil {
+				ms = append(ms, "!nil")
+				continue
+			}
+			ms = append(ms, verifC06Rect(m.Ref))
+		}
+	}
+	fmt.Fprintf(&b, " M[%s]", strings.Join(ms, ";"))
+	var hs []string
+	if ws.Hyperlinks != nil {
+		for _, h := range ws.Hyperlinks.Hyperlink {
+			pos := "!" + verifHex(h.Ref)
+			if c, r, err := CellNameToCoordinates(h.Ref); err == nil {
+				pos = fmt.Sprintf("%d.%d", c, r)
+			}
+			hs = append(hs, pos+"/"+verifHex(h.Location+"|"+h.Display+"|"+h.Tooltip+"|"+h.RID))
+		}
+	}
+	fmt.Fprintf(&b, " H[%s]", strings.Join(hs, ";"))
+	var vs []string
+	if ws.DataValidations != nil {
+		for _, dv := range ws.DataValidations.DataValidation {
+			if dv == nil {
+				continue
+			}
+			f1, f2 := "", ""
+			if dv.Formula1 != nil {
+				f1 = dv.Formula1.Content
+			}
+			if dv.Formula2 != nil {
+				f2 = dv.Formula2.Content
+			}
+			vs = append(vs, verifC06Sq(dv.Sqref)+"/"+verifHex(dv.Type+"|"+dv.Operator+"|"+f1+"|"+f2))
+		}
+	}
+	fmt.Fprintf(&b, " V[%s]", strings.Join(vs, ";"))
+	var fs []string
+	for _, cf := range ws.ConditionalFormatting {
+		if cf == nil {
+			continue
+		}
+		var rb strings.Builder
+		for _, r := range cf.CfRule {
+			if r == nil {
+				continue
+			}
+			dxf := -1
+			if r.DxfID != nil {
+				dxf = *r.DxfID
+			}
+			fmt.Fprintf(&rb, "%s,%d,%s,%d,%s;", r.Type, r.Priority, r.Operator, dxf, strings.Join(r.Formula, ","))
+		}
+		fs = append(fs, verifC06Sq(cf.SQRef)+"/"+verifHex(rb.String()))
+	}
+	fmt.Fprintf(&b, " F[%s]", strings.Join(fs, ";"))
+	a := ""
+	if ws.AutoFilter != nil {
+		a = verifC06Rect(ws.AutoFilter.Ref)
+	}
+	fmt.Fprintf(&b, " A[%s]", a)
+	var ts []string
+	if ws.TableParts != nil {
+		for _, tbl := range ws.TableParts.TableParts {
+			target := f.getSheetRelationshipsTargetByID(sheet, tbl.RID)
+			tableXML := strings.ReplaceAll(target, "..", "xl")
+			content, ok := f.Pkg.Load(tableXML)
+			if !ok {
+				continue
+			}
+			t := xlsxTable{}
+			if err := f.xmlNewDecoder(bytes.NewReader(namespaceStrictToTransitional(content.([]byte)))).
+				Decode(&t); err != nil && err != io.EOF {
+				ts = append(ts, "!decode/-")
+				continue
+			}
+			ts = append(ts, verifC06Rect(t.Ref)+"/"+verifHex(t.Name))
+		}
+	}
+	fmt.Fprintf(&b, " T[%s]", strings.Join(ts, ";"))
+	return b.String()
+}
+
+// VerifC06MergeHelper exposes adjustMergeCellsHelper.
+func VerifC06MergeHelper(p1, p2, num, offset int) (int, int) {
+	return (&File{}).adjustMergeCellsHelper(p1, p2, num, offset)
+}
+
+// VerifC06CellRef exposes adjustCellRef (rows=true for the row direction).
+func VerifC06CellRef(ref string, rowDir bool, num, offset int) (string, error) {
+	return (&File{}).adjustCellRef(ref, adjustDirection(rowDir), num, offset)
+}
